@@ -12,6 +12,17 @@ class AnchorMissing(Exception):
     pass
 
 
+class _Undecided:
+    def __repr__(self):
+        return 'UNDECIDED'
+
+    def __bool__(self):
+        return False
+
+
+UNDECIDED = _Undecided()
+
+
 class Check:
     def __init__(self, pid, tier, seed, facts):
         self.pid = pid
@@ -34,6 +45,7 @@ class Check:
         self.clauses_not_decided = []
         self.errors = []
         self.liveness = None
+        self.undecided = []       # dicts: key, rule, site, msg — clauses that could not be decided on this code shape (never a violation)
 
     # ---- anchors
     def fn(self, key):
@@ -58,10 +70,15 @@ class Check:
 
     # ---- obligations
     def ob(self, rule, key, ok, site='', msg='', sample=None):
-        """One obligation of `rule` identified by `key` (no line numbers in keys)."""
+        """One obligation of `rule` identified by `key` (no line numbers in keys).
+        ok truthy: discharged; falsy (False, None, empty): REFUTED (a definite violation: the rule understood the code and found the fact missing / contradicted);
+        the sentinel UNDECIDED (use ob3 for three-valued results): the code is not in a shape the rule understands — reported, never a violation."""
         self.obligations += 1
         r = self.rules.setdefault(rule, [0, 0])
         r[0] += 1
+        if ok is UNDECIDED:
+            self.undecided.append({'key': '%s/%s' % (rule, key), 'rule': rule, 'site': site, 'msg': msg})
+            return None
         if ok:
             self.discharged += 1
             r[1] += 1
@@ -71,15 +88,23 @@ class Check:
             self.samples.append({'rule': rule, 'instance': key, 'site': site, 'facts': sample, 'ok': bool(ok)})
         return ok
 
+    def ob3(self, rule, key, ok, site='', msg='', sample=None):
+        """three-valued obligation: True / False / None (= undecided)"""
+        return self.ob(rule, key, UNDECIDED if ok is None else bool(ok), site, msg, sample)
+
     def violation(self, rule, key, site, msg):
+        """(historical name) the rule could not find / understand its anchor structure: UNDECIDED, not a violation"""
+        self.ob(rule, key, UNDECIDED, site, msg)
+
+    def refuted(self, rule, key, site, msg):
         self.ob(rule, key, False, site, msg)
 
     def floor(self, rule, counted, floor):
         """Fail closed when a rule sees fewer instances than were counted by hand."""
         self.floors.append((rule, counted, floor))
         if counted < floor:
-            self.violations.append({'key': '%s/floor' % rule, 'rule': rule, 'site': '',
-                                    'msg': 'anchor-missing: rule %s matched %d instances, floor is %d — the clause can no longer be decided' % (rule, counted, floor)})
+            self.undecided.append({'key': '%s/floor' % rule, 'rule': rule, 'site': '',
+                                   'msg': 'rule %s matched %d instances, %d were counted when the rule was written: part of the code is no longer in a shape the rule finds — that part is not decided' % (rule, counted, floor)})
 
     def exception(self, key, reason):
         self.exceptions.append((key, reason))
@@ -103,10 +128,7 @@ class Check:
         import importlib
         mod = importlib.import_module('qxlib.props.%s' % pid)
         sub = Check(pid, self.tier, self.seed, self.facts)
-        try:
-            mod.run(sub, **kw)
-        except AnchorMissing as e:
-            sub.violation('anchor', 'missing/%s' % e, str(e), 'anchor-missing: function %s no longer exists (fail closed)' % e)
+        run_resilient(mod, sub, 'run', **kw)
         self.obligations += sub.obligations
         self.discharged += sub.discharged
         for v in sub.violations:
@@ -115,6 +137,7 @@ class Check:
             t = self.rules.setdefault('dep-%s:%s' % (pid, r), [0, 0])
             t[0] += a
             t[1] += b
+        self.undecided += [{'key': 'dep-%s/%s' % (pid, u['key']), 'rule': u['rule'], 'site': u['site'], 'msg': u['msg']} for u in sub.undecided]
         self.functions |= sub.functions
         self.controls += [('dep-%s: %s' % (pid, n), f) for n, f in sub.controls]
         self.floors += [('dep-%s:%s' % (pid, r), c, f) for r, c, f in sub.floors]
@@ -155,6 +178,12 @@ class Check:
             out_lines.append('  site   %s' % v['site'])
             out_lines.append('  what   %s' % v['msg'])
             out_lines.append('  key    %s' % v['key'])
+        useen = set()
+        for u in self.undecided:
+            if u['key'] in useen:
+                continue
+            useen.add(u['key'])
+            out_lines.append('UNDECIDED property=%s %s — %s' % (self.pid, u['key'], (u['msg'] or '')[:240]))
         controls_failed = [n for n, f in self.controls if not f]
         status = 0
         if unlisted:
@@ -186,6 +215,7 @@ class Check:
                 'floors': [{'rule': r, 'counted': c, 'floor': f} for r, c, f in self.floors],
                 'exceptions': [{'key': k, 'reason': r} for k, r in self.exceptions],
                 'known_findings_present': [v['key'] for v, _ in listed],
+                'undecided': [{'key': u['key'], 'site': u['site'], 'why': (u['msg'] or '')[:300]} for u in self.undecided][:40],
                 'positive_controls': [{'name': n, 'fired': f} for n, f in self.controls],
                 'samples': self.samples[:24] or [{'note': 'no instance sampled'}],
                 'notes': self.notes,
@@ -195,7 +225,7 @@ class Check:
                               'cached': self.facts.get('_cached'), 'hir_nodes': self.facts.get('nodes')},
                 'checker_cmd': 'bin/qx check %s --tier %s' % (self.pid, self.tier),
                 'trusted_base': ['rustc nightly (type check, name resolution)', 'qxfacts driver', 'reference tables under /verif/refs and in the rule modules'],
-                'exhaustive': True,
+                'exhaustive': not self.undecided,
             },
             'assumptions': ['contract/reference tables are the right ZX-calculus / gate identities (trusted base)',
                             'only the quizx lib target is analysed; dependencies are trusted'],
@@ -208,10 +238,80 @@ class Check:
         os.makedirs(evdir, exist_ok=True)
         with open(os.path.join(evdir, '%s.json' % self.pid), 'w') as fh:
             json.dump(ev, fh, indent=1, sort_keys=False)
-        summary = '%s: %d obligations, %d discharged, %d known finding(s), %d violation(s), %d control(s) [%s], %.1fs' % (
-            self.pid, self.obligations, self.discharged, len(listed), len(unlisted), len(self.controls),
+        summary = '%s: %d obligations, %d discharged, %d undecided, %d known finding(s), %d violation(s), %d control(s) [%s], %.1fs' % (
+            self.pid, self.obligations, self.discharged, len(useen), len(listed), len(unlisted), len(self.controls),
             'ok' if not controls_failed else 'FAILED', wall)
         return status, out_lines, summary
+
+
+def run_resilient(mod, ck, fname='run', *args, **kw):
+    """Execute `mod.<fname>(ck, **kw)` one top-level statement at a time: an exception in one statement (the rule engine met a code shape it cannot
+    analyse) makes the clauses of that statement UNDECIDED and the remaining statements still run.  Statements that then lack a variable are
+    undecided too.  On the unchanged tree no statement may fail (bin/precommit rejects any UNDECIDED line)."""
+    import ast
+    import inspect
+    import textwrap
+    fn = getattr(mod, fname)
+    try:
+        src = textwrap.dedent(inspect.getsource(fn))
+        tree = ast.parse(src)
+        fdef = tree.body[0]
+    except (OSError, SyntaxError, IndexError):
+        return fn(ck, *args, **kw)
+    ns = dict(mod.__dict__)
+    sig = inspect.signature(fn)
+    for i, (name, prm) in enumerate(sig.parameters.items()):
+        if i == 0:
+            ns[name] = ck
+        elif i - 1 < len(args):
+            ns[name] = args[i - 1]
+        elif name in kw:
+            ns[name] = kw[name]
+        elif prm.default is not inspect.Parameter.empty:
+            ns[name] = prm.default
+        elif prm.kind == inspect.Parameter.VAR_KEYWORD:
+            ns[name] = dict(kw)
+    # calls to a sibling `_run_own(ck)` / `_d1(ck, facts)` / `_controls(ck)` runner defined in the module are made resilient as well
+    import re as _re
+    for nm, obj in list(mod.__dict__.items()):
+        if callable(obj) and _re.match(r'^_(run_own|d\d+|controls)$', nm) and nm != fname:
+            ns[nm] = (lambda _nm: (lambda ck2, *a, **k: run_resilient(mod, ck2, _nm, *a, **k)))(nm)
+
+    class _StopRun(Exception):
+        pass
+    ns['_StopRun'] = _StopRun
+
+    class _NoReturn(ast.NodeTransformer):
+        def visit_Return(self, node):
+            return ast.copy_location(ast.Raise(exc=ast.Call(func=ast.Name(id='_StopRun', ctx=ast.Load()), args=[], keywords=[]), cause=None), node)
+
+        def visit_FunctionDef(self, node):      # nested defs keep their returns
+            return node
+
+        def visit_Lambda(self, node):
+            return node
+    for stmt in fdef.body:
+        if isinstance(stmt, ast.Return):
+            break
+        try:
+            seg = ast.get_source_segment(src, stmt) or ''
+        except Exception:
+            seg = ''
+        lineno0 = stmt.lineno + fn.__code__.co_firstlineno - 1
+        stmt = ast.fix_missing_locations(_NoReturn().visit(stmt))
+        m = ast.Module(body=[stmt], type_ignores=[])
+        ast.increment_lineno(m, fn.__code__.co_firstlineno - 1)
+        try:
+            code = compile(m, inspect.getsourcefile(fn) or '<run>', 'exec')
+            exec(code, ns)
+        except _StopRun:
+            break
+        except AnchorMissing as e:
+            ck.ob('anchor', 'missing/%s' % e, UNDECIDED, str(e), 'function %s no longer exists under this name: the clauses anchored in it are not decided' % e)
+        except Exception as ex:      # noqa: BLE001 — by design: an engine failure on unfamiliar code is "undecided", never an alarm
+            rules = sorted(set(__import__('re').findall(r"'((?:R|E3|E4)-[A-Za-z0-9-]+)'", seg)))
+            ck.ob('engine', '%s/%s-line-%d' % (mod.__name__.rsplit('.', 1)[-1], '+'.join(rules)[:60] or 'statement', lineno0), UNDECIDED, '',
+                  'the rule engine could not analyse this code shape (%s: %s); clauses %s are not decided' % (type(ex).__name__, str(ex)[:120], ', '.join(rules) or 'of this statement'))
 
 
 def load_known():
